@@ -78,6 +78,48 @@ func Frames(stack string) []string {
 	return out
 }
 
+// CycleSite detects unbounded/deep recursion in a list of go-git frames
+// (innermost first): a block of p frames that repeats at least three times,
+// allowing a few non-repeating callee frames on top. Which function of the
+// cycle is on top when the dump is taken is arbitrary, so the site is the
+// lexicographically smallest member of the cycle.
+func CycleSite(fr []string) (string, bool) {
+	for off := 0; off < 12 && off < len(fr); off++ {
+		for p := 1; p <= 8; p++ {
+			if off+3*p > len(fr) {
+				break
+			}
+			ok := true
+			for i := off; i < off+2*p; i++ {
+				if fr[i] != fr[i+p] {
+					ok = false
+					break
+				}
+			}
+			if ok {
+				m := fr[off]
+				for _, f := range fr[off : off+p] {
+					if f < m {
+						m = f
+					}
+				}
+				return "recursion:" + m, true
+			}
+		}
+	}
+	return "", false
+}
+
+func goGitInnermostFirst(fr []string) []string {
+	var gg []string
+	for _, f := range fr {
+		if strings.HasPrefix(f, GoGit) {
+			gg = append(gg, strings.TrimPrefix(f, GoGit))
+		}
+	}
+	return gg
+}
+
 // Site returns the top go-git frame of a failing stack: the first go-git
 // function below the last panic()/sigpanic frame (or from the top when there
 // is none). ok is false when the stack holds no go-git frame; then the top
@@ -89,6 +131,9 @@ func Site(stack string) (site string, ok bool) {
 		if f == "panic" || strings.HasPrefix(f, "runtime.sigpanic") || f == "runtime.throw" || f == "runtime.fatalthrow" {
 			start = i + 1
 		}
+	}
+	if c, ok := CycleSite(goGitInnermostFirst(fr[start:])); ok {
+		return c, true
 	}
 	for _, f := range fr[start:] {
 		if strings.HasPrefix(f, GoGit) {
@@ -120,6 +165,11 @@ func GoGitFrames(stack string) []string {
 // returns the innermost go-git frame shared by all samples: the function
 // that contains the loop.
 func CommonLoopSite(stacks []string) string {
+	for _, s := range stacks {
+		if c, ok := CycleSite(goGitInnermostFirst(Frames(s))); ok {
+			return c
+		}
+	}
 	var common []string
 	for i, s := range stacks {
 		g := GoGitFrames(s)
